@@ -115,21 +115,24 @@ def qdAt : List (Int × Nat) → Int → Option Nat
 -- ------------------------------------------------------------------ class hierarchy
 
 /-- `iter_subclasses(cls, _seen)`: depth-first over `__subclasses__()`, skipping classes already seen.
-Returns the yielded sequence and the updated `_seen`.  `fuel` bounds the recursion depth. -/
+Returns the yielded sequence and the updated `_seen`.  Every call (descending into a class or moving on
+to the next sibling) consumes one unit of `fuel`; the lists met along one chain of calls belong to
+distinct classes, so `#edges + #classes + 1` units suffice. -/
 def dfsList (tab : List (List Nat)) : Nat → List Nat → List Nat → List Nat × List Nat
   | 0, _, seen => ([], seen)
   | _ + 1, [], seen => ([], seen)
   | fuel + 1, sub :: subs, seen =>
-    if sub ∈ seen then dfsList tab (fuel + 1) subs seen
+    if sub ∈ seen then dfsList tab fuel subs seen
     else
-      let (below, seen1) := dfsList tab fuel (tab.getD sub []) (sub :: seen)
-      let (rest, seen2) := dfsList tab (fuel + 1) subs seen1
-      (sub :: (below ++ rest), seen2)
-termination_by fuel subs _ => (fuel, subs.length)
+      let r1 := dfsList tab fuel (tab.getD sub []) (sub :: seen)
+      let r2 := dfsList tab fuel subs r1.2
+      (sub :: (r1.1 ++ r2.1), r2.2)
+
+def dfsFuel : Nat := (Gen.directSubclasses.map List.length).sum + Gen.numClasses + 1
 
 /-- the sequence `iter_subclasses(c)` yields, computed from the generated `__subclasses__()` table -/
 def iterSubclasses (c : Nat) : List Nat :=
-  (dfsList Gen.directSubclasses (Gen.numClasses + 1) (Gen.directSubclasses.getD c []) []).1
+  (dfsList Gen.directSubclasses dfsFuel (Gen.directSubclasses.getD c []) []).1
 
 /-- `issubclass(d, c)` from the generated MRO table -/
 def isSubclass (d c : Nat) : Bool := (Gen.mroTab.getD d []).contains c
